@@ -813,6 +813,15 @@ func checkArithmeticAccumulators(c *Ctx, rule string, pkg string) {
 									walk(e2)
 								}
 							}
+						case *ssa.Extract:
+							walk(x.Tuple)
+						case *ssa.Call:
+							// a same-package helper that is handed the running value and returns the new one
+							if g := x.Call.StaticCallee(); g != nil && fnPkgPath(g) == fnPkgPath(fn) && len(g.Blocks) > 0 {
+								for _, a := range x.Call.Args {
+									walk(a)
+								}
+							}
 						}
 					}
 					walk(e)
